@@ -629,4 +629,54 @@ func resolveFieldsByFingerprint(p *Program) {
 		fieldMatches++
 		rolesRenamed++
 	}
+	// elimination: within one struct, a reference field that is gone and a current field that is new, the only ones of
+	// their type on either side, are the same field under a new name (its users may all have been reshaped)
+	type slot struct{ missing, fresh []string }
+	groups := map[string]*slot{} // "pkg.Type|fieldtype"
+	for _, k := range keys {
+		parts := strings.SplitN(k, ".", 3)
+		if len(parts) != 3 {
+			continue
+		}
+		if _, mapped := toActual[k]; mapped {
+			continue
+		}
+		if n, _ := p.declaredIn(relOf(parts[0]), parts[1], parts[2]); n != nil {
+			continue
+		}
+		g := parts[0] + "." + parts[1] + "|" + ref[k].Typ
+		if groups[g] == nil {
+			groups[g] = &slot{}
+		}
+		groups[g].missing = append(groups[g].missing, parts[2])
+	}
+	for st, frs := range cur {
+		seen := map[string]bool{}
+		for _, fr := range frs {
+			if refNames[fr.String()] || seen[fr.Field] || strings.Contains(fr.Field, ".") {
+				continue
+			}
+			if _, isCanon := toCanonical[fr.String()]; isCanon {
+				continue
+			}
+			seen[fr.Field] = true
+			_, ft := p.declaredIn(relOf(fr.Pkg), fr.Type, fr.Field)
+			if ft == nil {
+				continue
+			}
+			if g := groups[st+"|"+canonTypeString(ft)]; g != nil {
+				g.fresh = append(g.fresh, fr.Field)
+			}
+		}
+	}
+	for g, s := range groups {
+		if len(s.missing) != 1 || len(s.fresh) != 1 {
+			continue
+		}
+		st := g[:strings.Index(g, "|")]
+		toActual[st+"."+s.missing[0]] = s.fresh[0]
+		toCanonical[st+"."+s.fresh[0]] = s.missing[0]
+		fieldMatches++
+		rolesRenamed++
+	}
 }
